@@ -79,3 +79,12 @@ def distribution(results):
         elif n <= 3: d['lines_2_3'] += 1
         else: d['lines_4plus'] += 1
     return d
+
+LEVEL_TEXT = ('Machine-checked Coq theorem over an executable model of net_writen: for every s[0] in the contract and every list of '
+              'CR/LF-free strings of any length the output is a valid multi-line SMTP reply (<= 512 octets per line, same code, '
+              "'-'/final separator, no bare CR/LF), carries the text completely and in order, and no buffer access is out of range. "
+              'Constants are regenerated from lib/netio.c on every run; the model is tied to the C by a differential run under ASan.')
+LEVEL_NOTE = ('Trusted: Coq kernel, translator regexes, extraction (ExtrOcamlBasic), harness, generator quality of the correspondence run. '
+              'Assumed: embedded strings are free of CR/LF; netnwrite/write(2) transmit the buffer unchanged.')
+TECHNIQUE = 'Coq proof by induction over parts / loop invariant on (msg,len,off); translator-regenerated constants; model-vs-C differential run'
+DESIGN_REF = 'DESIGN.md section 5, C10'
